@@ -13,3 +13,6 @@ OBLIGATIONS = [
     ob('C20.linear.env', 'h_c20_linear', [(f, s, 0) for f in range(3) for s in (0, 3)], ['linear model stays between its two boundary temperatures', 'end'], '3 area families, constant/variable surfaces, arbitrary feature and model ranges', C05.TUS_AREA),
     ob('C20.linear.bnd', 'h_c20_linear', [(f, 0, 1) for f in range(3)], ['linear model attains the top temperature at its own top', 'linear model attains the bottom temperature at its own bottom', 'end'], 'as above', C05.TUS_AREA),
 ]
+# plate cooling: the envelope of the 100-term series itself is not decidable with uninterpreted sin/exp, but its precondition is - the steady-state term and every
+# Fourier term use ONE plate thickness (the model's max depth); mixing two length scales lets the sum leave [top, bottom].  Same obligation as C05.oceanic.plate.
+OBLIGATIONS = OBLIGATIONS + [dict(o, id='C20.plate.scale') for o in C05.OBLIGATIONS if o['id'] == 'C05.oceanic.plate']
